@@ -580,7 +580,7 @@ def r_err_kinds(rep, prog):
     for fn in ("llfree::llfree::LLFree::get_at", "llfree::llfree::LLFree::get_local", "llfree::llfree::LLFree::reserve_or_steal",
                "llfree::llfree::LLFree::steal_global", "llfree::llfree::LLFree::steal_local", "llfree::llfree::LLFree::demote_local",
                "llfree::lower::Lower::get", "llfree::lower::Lower::get_at", "llfree::lower::Lower::put", "llfree::lower::Lower::put_small",
-               "llfree::lower::Lower::partial_put_huge"):
+               "llfree::lower::Lower::partial_put_huge", "llfree::trees::Trees::change_at"):
         want[fn] = {E["Memory"]}
     names = {v: k for k, v in E.items()}
     n = 0
